@@ -2178,6 +2178,29 @@ func propC11(r *Run, w *World) {
 		for _, s := range w.Invokes(x.stream, m) {
 			held := li.Held(s.Instr)
 			r.Check(len(held) == 0, "invoke "+m+" in "+fnName(s.Caller), s.Instr.Pos(), "no lock held", "Stream."+m+" is invoked while holding "+held.String()+"; a callback that re-enters the Reassembler deadlocks")
+			// ... and on no call chain: Held is what is held on every way in (the intersection over
+			// call sites), which is the right question for "is this access protected" and the wrong
+			// one here — one caller holding a lock is enough to deadlock a re-entering callback
+			var viaLock, viaSite string
+			seenFn := map[*ssa.Function]bool{}
+			var up func(fn *ssa.Function, depth int)
+			up = func(fn *ssa.Function, depth int) {
+				if seenFn[fn] || depth > 6 {
+					return
+				}
+				seenFn[fn] = true
+				for _, cs := range w.CallSites(fn) {
+					if _, isGo := cs.Instr.(*ssa.Go); isGo {
+						continue
+					}
+					if h := li.Held(cs.Instr); len(h) > 0 && viaLock == "" {
+						viaLock, viaSite = h.String(), fnName(cs.Caller)
+					}
+					up(cs.Caller, depth+1)
+				}
+			}
+			up(s.Caller, 0)
+			r.Check(viaLock == "", "invoke "+m+" in "+fnName(s.Caller)+" on every call chain", s.Instr.Pos(), "no caller holds a lock", "Stream."+m+" is reached from "+viaSite+" while "+viaSite+" holds "+viaLock+" (also a read lock: a callback that calls Close, or re-enters while a writer waits, deadlocks)")
 		}
 	}
 	reviewed := map[string]bool{"time.Now": true, "(time.Time).Add": true, "(time.Time).After": true, "(time.Time).Before": true, "sort.Sort": true,
